@@ -38,7 +38,7 @@ def nontrivial(op, impl):
 def gen(tier, rng, boost=1):
     ops = gen_bs(tier, rng, boost)
     # every scope history twice: memory and stream (extra_checks compares the pairs)
-    base = gen_scope_ops(tier, rng, boost, partial_arrays=False, count=(300 if tier == "quick" else 6000) * boost)
+    base = gen_scope_ops(tier, rng, boost, count=(300 if tier == "quick" else 6000) * boost)
     for op in base:
         t = op.split(" ")
         ops.append(" ".join([t[0], "mem"] + t[2:]))
